@@ -450,9 +450,17 @@ def _e2e(case, rec, rng):
         dm = dm * 0.0
     if kind == "empty_b":
         dm[1] *= 0.0
-    with np.errstate(all="ignore"):
-        n, e, v = gen.nr_eval(ks, dm)
-    rho_min = None
+    try:
+        with np.errstate(all="ignore"):
+            n, e, v = gen.nr_eval(ks, dm)
+    except RuntimeError as ex:
+        if "NLDF exponent is too large" in str(ex):
+            # a random one-electron density has nodal surfaces where |grad rho|^2 / rho^2 diverges: the plan refuses
+            # exponents above its ladder instead of extrapolating (the behaviour C18 demands); not a C08 event
+            rec.tag("refused", "NLDF exponent above alpha_max (nodal one-electron density)")
+            rec.set_sample({"cfg": cfg, "kind": kind, "refused": "exponent above alpha_max"})
+            return
+        raise
     _finite(rec, "nr_" + cfg["spin"], [np.atleast_1d(n), np.atleast_1d(e), v], "nr_%s[%s,%s]" % (cfg["spin"], cfg["family"], kind))
     if kind == "zero_dm":
         rec.check("zero_density_zero_energy", abs(float(e)), 0.0, mechanism="nr_%s:nonzero-energy-for-zero-density[%s]" % (cfg["spin"], cfg["family"]))
